@@ -247,6 +247,10 @@ def generic_rules(body):
         op = h.end() - 1
         cl = match_brace(m, op)
         edits.append((h.start(), cl + 1, 'page_at(%s)' % body[op + 1:cl].strip(), 'U2'))
+    # U20 (generic)  Bytes::Slice(E) => bytes_slice(E): the Bytes enum is opaque outside unit `bytes`; the stub says that the value
+    #      denotes exactly the bytes of E (prelude/pagenode_types.rs; unit bytes proves the view of each variant)
+    for h in re.finditer(r'\bBytes::Slice\s*\(', m):
+        edits.append((h.start(), h.end(), 'bytes_slice(', 'U20'))
     # R11  V.binary_search(&E) => V.binary_search_v(&E)   (trait shim with std's full contract for an ascending u64 list, prelude/sortv.rs)
     for h in re.finditer(r'\.\s*binary_search\s*\(', m):
         edits.append((h.start(), h.end(), '.binary_search_v(', 'R11'))
